@@ -102,18 +102,19 @@ Definition open1_i := open1 ms_select_impl ms_lazy_impl.
 Lemma holds_model_any : forall ms_select ms_lazy,
   (forall sup l p, ms_select sup l = Some p ->
      exists l1 l2, l = l1 ++ p :: l2 /\ sup p = true /\ (forall q, In q l1 -> sup q = false)) ->
+  (forall sup l, ms_select sup l = None -> forall q, In q l -> sup q = false) ->
   (forall sup p, ms_lazy sup p = sup p) ->
   forall U hs c ops, wf_cfg hs c -> Forall (wf_op U) ops ->
-  holds U hs (limL c) (trace ms_select ms_lazy U c init_st ops) = true.
+  holds U hs c (trace ms_select ms_lazy U c init_st ops) = true.
 Proof.
-  intros ms_select ms_lazy H1 H2 U hs c ops Hwf Hops. unfold holds.
-  rewrite (mon_accepts_trace ms_select ms_lazy H1 H2 U hs c ops init_st (mon_init U) 0 Hwf
+  intros ms_select ms_lazy H1 Hn H2 U hs c ops Hwf Hops. unfold holds.
+  rewrite (mon_accepts_trace ms_select ms_lazy H1 Hn H2 U hs c ops init_st (mon_init U) 0 Hwf
              (coupled_init U hs) Hops). reflexivity.
 Qed.
 
 Lemma holds_model_i : forall U hs c ops, wf_cfg hs c -> Forall (wf_op U) ops ->
-  holds U hs (limL c) (trace_i U c init_st ops) = true.
-Proof. intros. apply holds_model_any; auto using impl_select_some, impl_lazy_spec. Qed.
+  holds U hs c (trace_i U c init_st ops) = true.
+Proof. intros. apply holds_model_any; [exact impl_select_some | exact impl_select_none | exact impl_lazy_spec | assumption | assumption]. Qed.
 
 Lemma agreement_i : forall c t kn b reqs extra race allow b' r,
   open1_i c t kn b reqs extra race allow = (b', r) -> obtained r = true ->
